@@ -843,6 +843,105 @@ package eval
 //@     invariant [untouched-suffix] (forall ((j Int)) (! (=> (and (< (+ (off (fld $e nodes)) $rangeindex) j) (< j (+ (off (fld $e nodes)) (len (fld $e nodes)))))
 //@          (= (NFLAG $e j) (old (NFLAG $e j)))) :pattern ((select (arr (fld $e nodes)) j))))
 
+// C01 / C03 — the pass that computes the short-circuit jumps (what Eval follows when an operand decides its
+// and/or).  Ghost vocabulary over node indices (tied to the program by the precondition): parG parent index,
+// andG / orG "is an and / or operator", lastG "the pass's own last-operand test holds", and the two relations
+//   okF(k,T) / okTt(k,T): "when node k yields false / true, every and/or from k's parent up to T is decided
+//                          to that same value" (T is an ancestor-or-`if` target a jump from k may go to)
+// given by their closure rules only (the contract is proved for EVERY interpretation closed under the rules,
+// hence for the least one, which is the real relation):
+//   decided-parent:  k is an operand of and (false) / or (true), or the last operand   => ok(k, parent k)
+//   transitive:      same premise and ok(parent k, T)                                   => ok(k, T)
+//   if-branch:       k is a branch of an `if` node and ok(`if` node, T)                 => ok(k, T)
+// Proved: every short-circuit bit a node carries is backed by ok(k, target) for the recorded target (soundness:
+// no jump skips an operator whose value is not yet decided), every operand of and / or carries the bit of its
+// operator (completeness: decided operands ARE skipped), no other node carries one, targets are in range, only
+// flag bits 3-4 and scIdx of non-cond nodes change.
+//@ ghost (declare-fun parG (Int) Int)
+//@ ghost (declare-fun andG (Int) Bool)
+//@ ghost (declare-fun orG (Int) Bool)
+//@ ghost (declare-fun lastG (Int) Bool)
+//@ ghost (declare-fun okF (Int Int) Bool)
+//@ ghost (declare-fun okTt (Int Int) Bool)
+//@ macro (SCF $x) (bit $x 8)
+//@ macro (SCT $x) (bit $x 16)
+//@ macro (BOOLP $k) (and (not (= (parG $k) -1)) (or (andG (parG $k)) (orG (parG $k))))
+//@ macro (DECF $k) (and (not (= (parG $k) -1)) (or (andG (parG $k)) (and (orG (parG $k)) (lastG $k))))
+//@ macro (DECT $k) (and (not (= (parG $k) -1)) (or (orG (parG $k)) (and (andG (parG $k)) (lastG $k))))
+//@ macro (BRG $k) (and (not (= (parG $k) -1)) (= (kindAt (parG $k)) 5) (> $k (parG $k)))
+//@ macro (SCL1 $k $fk $FL $n) (and
+//@      (=> (not (BOOLP $k)) (and (= $fk $k) (not (SCF $FL)) (not (SCT $FL))))
+//@      (=> (BOOLP $k) (and (= (SCF $FL) (DECF $k)) (= (SCT $FL) (DECT $k)) (=> (SCF $FL) (okF $k $fk)) (=> (SCT $FL) (okTt $k $fk)) (<= 0 $fk) (< $fk $n))))
+//@ macro (SCFIN $k $fk $FL $n) (and (<= 0 $fk) (< $fk $n) (=> (SCF $FL) (okF $k $fk)) (=> (SCT $FL) (okTt $k $fk))
+//@      (=> (DECF $k) (SCF $FL)) (=> (DECT $k) (SCT $FL))
+//@      (=> (and (not (BOOLP $k)) (not (BRG $k))) (and (not (SCF $FL)) (not (SCT $FL)))))
+//@ macro (SCKEEPS $e) (forall ((j Int)) (! (=> (INNODES $e j) (let ((f1 (NFLAG $e j)) (f0 (old (NFLAG $e j)))) (and (= (mod f1 8) (mod f0 8)) (= (div f1 32) (div f0 32)) (<= 0 f1) (< f1 256))))
+//@      :pattern ((select (arr (fld $e nodes)) j))))
+//@ macro (SCTGT $nd $n) (ite (= (fld $nd scIdx) -1) (- $n 1) (fld $nd scIdx))
+//@ macro (I16FRAME) (forall ((r Int)) (! (=> (< r (old (next))) (= (select (heap E_int16) r) (select (old (heap E_int16)) r))) :pattern ((select (heap E_int16) r))))
+//@ func calAndSetShortCircuit C01 C03 C06
+//@   requires [shape] (PROGSHAPE $e)
+//@   requires [ghost-tied] (forall ((j Int)) (! (=> (INNODES $e j)
+//@         (let ((nd (select (arr (fld $e nodes)) j)) (k (- j (off (fld $e nodes)))))
+//@           (and (= (idxOf nd) k) (= (kindAt k) (KIND nd)) (= (parG k) (PARENTAT $e k)) (= (andG k) (ISANDN nd)) (= (orG k) (ISORN nd))
+//@                (= (lastG k) (ite (= (KIND nd) 4) (= (parG k) (+ k 3)) (= (parG k) (+ k 1))))
+//@                (=> (or (= (KIND nd) 3) (= (KIND nd) 4)) (is.string (fld nd value)))
+//@                (<= 0 (fld nd flag)) (< (fld nd flag) 256) (not (SCF (fld nd flag))) (not (SCT (fld nd flag)))
+//@                (>= (dep k) 0) (=> (not (= (parG k) -1)) (< (dep (parG k)) (dep k))))))
+//@         :pattern ((select (arr (fld $e nodes)) j))))
+//@   requires [closure-decided-parent] (forall ((k Int)) (! (and (=> (DECF k) (okF k (parG k))) (=> (DECT k) (okTt k (parG k)))) :pattern ((parG k))))
+//@   requires [closure-transitive-false] (forall ((k Int) (T Int)) (! (=> (and (DECF k) (okF (parG k) T)) (okF k T)) :pattern ((okF (parG k) T))))
+//@   requires [closure-transitive-true] (forall ((k Int) (T Int)) (! (=> (and (DECT k) (okTt (parG k) T)) (okTt k T)) :pattern ((okTt (parG k) T))))
+//@   requires [closure-if-branch-false] (forall ((k Int) (T Int)) (! (=> (and (BRG k) (okF (parG k) T)) (okF k T)) :pattern ((okF (parG k) T))))
+//@   requires [closure-if-branch-true] (forall ((k Int) (T Int)) (! (=> (and (BRG k) (okTt (parG k) T)) (okTt k T)) :pattern ((okTt (parG k) T))))
+//@   ensures [jump-on-false-is-decided] (forall ((j Int)) (! (=> (INNODES $e j) (let ((nd (select (arr (fld $e nodes)) j)) (k (- j (off (fld $e nodes)))))
+//@         (=> (and (SCF (fld nd flag)) (not (= (KIND nd) 5))) (okF k (SCTGT nd (len (fld $e nodes))))))) :pattern ((select (arr (fld $e nodes)) j))))
+//@   ensures [jump-on-true-is-decided] (forall ((j Int)) (! (=> (INNODES $e j) (let ((nd (select (arr (fld $e nodes)) j)) (k (- j (off (fld $e nodes)))))
+//@         (=> (and (SCT (fld nd flag)) (not (= (KIND nd) 5))) (okTt k (SCTGT nd (len (fld $e nodes))))))) :pattern ((select (arr (fld $e nodes)) j))))
+//@   ensures [decided-operands-jump] (forall ((j Int)) (! (=> (INNODES $e j) (let ((nd (select (arr (fld $e nodes)) j)) (k (- j (off (fld $e nodes)))))
+//@         (and (=> (DECF k) (SCF (fld nd flag))) (=> (DECT k) (SCT (fld nd flag)))))) :pattern ((select (arr (fld $e nodes)) j))))
+//@   ensures [nothing-else-jumps] (forall ((j Int)) (! (=> (INNODES $e j) (let ((nd (select (arr (fld $e nodes)) j)) (k (- j (off (fld $e nodes)))))
+//@         (=> (and (not (BOOLP k)) (not (BRG k))) (and (not (SCF (fld nd flag))) (not (SCT (fld nd flag))))))) :pattern ((select (arr (fld $e nodes)) j))))
+//@   ensures [targets-in-range] (forall ((j Int)) (! (=> (INNODES $e j) (let ((nd (select (arr (fld $e nodes)) j)))
+//@         (=> (not (= (KIND nd) 5)) (and (<= -1 (fld nd scIdx)) (< (fld nd scIdx) (- (len (fld $e nodes)) 1)))))) :pattern ((select (arr (fld $e nodes)) j))))
+//@   ensures [other-flag-bits-kept] (SCKEEPS $e)
+//@   ensures [cond-targets-kept] (forall ((j Int)) (! (=> (INNODES $e j) (let ((nd (select (arr (fld $e nodes)) j)))
+//@         (=> (= (KIND nd) 5) (= (fld nd scIdx) (old (fld nd scIdx)))))) :pattern ((select (arr (fld $e nodes)) j))))
+//@   assigns next E_int16 F_node.flag F_node.scIdx
+//@   loop 1 (i)
+//@     invariant [range] (and (<= -1 $i) (< $i (len (fld $e nodes))) (fresh $f) (= (len $f) (len (fld $e nodes))) (= (off $f) 0))
+//@     invariant [other-bits-kept] (SCKEEPS $e)
+//@     invariant [done] (forall ((j Int)) (! (=> (and (< (+ (off (fld $e nodes)) $i) j) (< j (+ (off (fld $e nodes)) (len (fld $e nodes)))))
+//@          (let ((k (- j (off (fld $e nodes))))) (SCL1 k (idx $f k) (NFLAG $e j) (len (fld $e nodes))))) :pattern ((select (arr (fld $e nodes)) j))))
+//@     invariant [todo] (forall ((j Int)) (! (=> (and (<= (off (fld $e nodes)) j) (<= j (+ (off (fld $e nodes)) $i))) (= (NFLAG $e j) (old (NFLAG $e j)))) :pattern ((select (arr (fld $e nodes)) j))))
+//@     invariant [frame] (I16FRAME)
+//@     decreases (+ $i 1)
+//@   loop 2 (pIdx)
+//@     invariant [at] (and (<= 0 $i) (< $i (len (fld $e nodes))) (<= 0 $pIdx) (< $pIdx (len (fld $e nodes))) (= $p (NODEAT $e $pIdx)) (BOOLP $i)
+//@          (fresh $f) (= (len $f) (len (fld $e nodes))) (= (off $f) 0))
+//@     invariant [flag] (and (= (SCF $flag) (DECF $i)) (= (SCT $flag) (DECT $i)) (or (= $flag 8) (= $flag 16) (= $flag 24))
+//@          (= (SCF (fld (NODEAT $e $i) flag)) (SCF $flag)) (= (SCT (fld (NODEAT $e $i) flag)) (SCT $flag)))
+//@     invariant [target-ok] (and (=> (SCF $flag) (okF $i (idx $f $i))) (=> (SCT $flag) (okTt $i (idx $f $i))) (<= 0 (idx $f $i)) (< (idx $f $i) (len (fld $e nodes))))
+//@     invariant [climb-false] (=> (SCF $flag) (forall ((T Int)) (! (=> (okF $pIdx T) (okF $i T)) :pattern ((okF $pIdx T)))))
+//@     invariant [climb-true] (=> (SCT $flag) (forall ((T Int)) (! (=> (okTt $pIdx T) (okTt $i T)) :pattern ((okTt $pIdx T)))))
+//@     invariant [done] (forall ((j Int)) (! (=> (and (< (+ (off (fld $e nodes)) $i) j) (< j (+ (off (fld $e nodes)) (len (fld $e nodes)))))
+//@          (let ((k (- j (off (fld $e nodes))))) (SCL1 k (idx $f k) (NFLAG $e j) (len (fld $e nodes))))) :pattern ((select (arr (fld $e nodes)) j))))
+//@     invariant [frame] (I16FRAME)
+//@     decreases (dep $pIdx)
+//@   loop 3 (i)
+//@     invariant [range] (and (<= 0 $i) (<= $i (len (fld $e nodes))) (fresh $f) (= (len $f) (len (fld $e nodes))) (= (off $f) 0))
+//@     invariant [other-bits-kept] (SCKEEPS $e)
+//@     invariant [final-prefix] (forall ((j Int)) (! (=> (and (<= (off (fld $e nodes)) j) (< j (+ (off (fld $e nodes)) $i)))
+//@          (let ((k (- j (off (fld $e nodes)))) (nd (select (arr (fld $e nodes)) j)))
+//@            (and (SCFIN k (idx $f k) (NFLAG $e j) (len (fld $e nodes)))
+//@                 (=> (not (= (KIND nd) 5)) (= (fld nd scIdx) (ite (= (idx $f k) (- (len (fld $e nodes)) 1)) -1 (idx $f k))))))) :pattern ((select (arr (fld $e nodes)) j))))
+//@     invariant [first-pass-suffix] (forall ((j Int)) (! (=> (and (<= (+ (off (fld $e nodes)) $i) j) (< j (+ (off (fld $e nodes)) (len (fld $e nodes)))))
+//@          (let ((k (- j (off (fld $e nodes))))) (SCL1 k (idx $f k) (NFLAG $e j) (len (fld $e nodes))))) :pattern ((select (arr (fld $e nodes)) j))))
+//@     invariant [cond-targets-kept] (forall ((j Int)) (! (=> (INNODES $e j) (let ((nd (select (arr (fld $e nodes)) j)))
+//@         (=> (= (KIND nd) 5) (= (fld nd scIdx) (old (fld nd scIdx)))))) :pattern ((select (arr (fld $e nodes)) j))))
+//@     invariant [frame] (I16FRAME)
+//@     decreases (- (len (fld $e nodes)) $i)
+
 //@ func check C09 C06
 //@   requires [tree] (and (inTree $root) (ASTOK))
 //@   ensures [accepted] (=> (= (fld $ret0 err) ENil) (and (= (fld $ret0 size) (TS $root)) (<= (TS $root) 32767) (AO $root)))
